@@ -27,6 +27,44 @@ Python; the linking theorem's hand model must guard it).
 A read of an `option` variable where its content is needed is a checked unwrap (Err 99 = TypeError on None).
 Every variable's type is declared in cfg["vars"]; an undeclared variable is refused.
 
+Object attributes (cfg["fields"] = {attr: (owner type, field type, getter template over {obj}, setter template over
+{obj} {val})}): an object held in a variable is a VALUE of its declared owner type;
+  e.attr            (e of the owner type)          the getter applied to e
+  x.attr = e        (x a bound variable)           let x := setter x e          (the object is rebound, as for x = ...)
+  x.attr.append(e)  (the field a list)             let x := setter x (getter x ++ [e])
+so a method that mutates `self` denotes the new value of self (cfg["implicit_return"] = "{self}").  Aliasing is NOT
+modelled: the configuration's author must check that no second reference to a mutated object is read afterwards.
+An attribute that is not declared, or an owner of another type, is refused.
+`x: T = e` inside a function body is `x = e` (annotations of local / attribute targets are not evaluated there).
+
+`with E as x: body` where E matches cfg["contexts"] (pattern -> (Gallina template, type), as for prims) is `x = E; body`:
+the configuration TRUSTS that __enter__ returns the value the template denotes and that __exit__ does not change any
+value the function goes on to use (closing a file that was read).  Any other `with` is refused.
+
+Statement-run primitives (cfg["stmt_prims"] = [(source text of CONSECUTIVE statements with holes __x, target variable,
+Gallina template over the holes, type, optional hole types)]): a run of statements that matches the text exactly (up
+to the holes) is replaced by `target = <template>`; it is the statement-level analogue of a prim, for library plumbing
+whose net effect on one variable is the trusted meaning (e.g. "read an HDF5 group into a dict").  Every other variable
+the run assigns is UNBOUND afterwards (a later read is refused), every non-hole name the run reads and does not itself
+assign must be bound where the run stands (or be listed in cfg["globals"]), and a changed statement no longer matches,
+so the run then meets the ordinary translation and is refused if outside the fragment.
+Additions for scoring/main.py (select_next_plate, score_chunk, ChunkedScoresHolder):
+  `dict T`            a dict with integer keys and values of type T (insertion-ordered association list `list (Z * T)`):
+                      `{}`, `d[k] = v` (dict_set: an existing key keeps its place, its value is replaced),
+                      `{k(x): v(x) for x in L}` (left fold of dict_set over L; neither k nor v may raise)
+  `x: T = e`          an annotated assignment is the assignment (the annotation is not read)
+  `if x is None: x = e`   with x bound at type `opt T` and DECLARED in cfg["vars"] at type T (the default-argument idiom):
+                      afterwards x has type T, `match x with Some v => v | None => e end`; e must not raise
+  if/else             a variable assigned by a plain `x = e` at the top level of BOTH branches is bound after the `if`
+                      even when it was not bound before it
+  `a in c`, c : opt   membership in a container that may be None is a checked unwrap (TypeError on None = Err 99)
+  `if c`, c : opt (list T)   truthiness of an optional list: false for None and for [] (opt_list_truthy)
+  [.. for x in L if P]  where P may raise (a single `if` that is not an and/or): res_filter, P evaluated element by
+                      element from the left, the first exception aborts; the element expression still must not raise
+  `a[i] = v`, a : list   with cfg["index_error"] = tag: list_set, IndexError (Err tag) when i is outside -len..len-1
+  cfg["coerce"]       [(from type, to type, template over {x})]: an upcast applied where the `to` type is needed
+                      (subclass used as its base class), also pointwise under `list` and `dict`
+
 Additions for stateful callees (retrospective wrappers / smoothers; all fail closed):
   cfg["state_calls"]   [(pattern, [state variables], template, value type, {hole: type})]: an assignment
                `x = <pattern>` whose right-hand side both returns a value and updates state the Python text does not
@@ -39,11 +77,9 @@ Additions for stateful callees (retrospective wrappers / smoothers; all fail clo
                statements that are not calls.
   `while True:` with `break` / `continue` (only with cfg["while_fuel"] = name of a `nat` parameter): PyRt.res_while, recursion on
                that explicit fuel over the tuple of carried variables; the body answers (go on?, state): `break` = false, end of
-               body / `continue` = true.  Running out of fuel is NOT a Python behaviour (Err 98): linking theorems are stated
+               body / `continue` = true.  Running out of fuel is NOT a Python behaviour (Err 97): linking theorems are stated
                for sufficient fuel.  Any other loop test, while/else, `return` inside are refused.
   `break` in a `for` loop (default monad only): PyRt.res_fold_brk, the body answers (go on?, state) like a while body.
-  [x for x in L if c(x)] whose single condition may raise: PyRt.res_filter (conditions evaluated left to right, the first
-               exception ends the comprehension); only for the default `result` monad.
 """
 import ast
 
@@ -63,6 +99,8 @@ def parse_type(s):
         return ("tuple", tuple(parse_type(x) for x in split_top(s[1:-1], "*")))
     if s == "dict":
         return ("dict",)
+    if s.startswith("dict "):
+        return ("dictof", parse_type(s[5:]))
     if s == "set":
         return ("set",)
     return (s,)
@@ -93,6 +131,8 @@ def coq_type(t):
         return "(%s)" % " * ".join(coq_type(x) for x in t[1])
     if t[0] == "dict":
         return "(list (Z * Z))"
+    if t[0] == "dictof":
+        return "(list (Z * %s))" % coq_type(t[1])
     if t[0] == "set":
         return "(list Z)"
     return t[0]
@@ -135,9 +175,19 @@ class Tr:
         self.return_state = list(cfg.get("return_state", []))
         spat = lambda p: Rename().visit(ast.parse(p)).body[0]
         self.assign_effects = [(spat(p), var, tmpl) for p, var, tmpl in cfg.get("assign_effects", [])]
+        # object attributes: {attr: (owner type, field type, getter template, setter template)}
+        self.fields = {a: (parse_type(o), parse_type(t), g, st) for a, (o, t, g, st) in cfg.get("fields", {}).items()}
+        self.coerce = {(parse_type(a), parse_type(b)): t for a, b, t in cfg.get("coerce", [])}
         self.raises = list(cfg.get("raises", []))  # [(substring of unparse(raise stmt), tag)]
         self.fresh = 0
         self.ret_type = parse_type(cfg["returns"])
+        self.contexts = [(pat(x[0]), x[1], parse_type(x[2]), {h: parse_type(t) for h, t in (x[3] if len(x) > 3 else {}).items()})
+                         for x in cfg.get("contexts", [])]
+        # statement-run primitives: (pattern statements, target, template, type, hole types)
+        self.stmt_prims = [(Rename().visit(ast.parse(x[0])).body, rn(x[1]), x[2], parse_type(x[3]),
+                            {h: parse_type(t) for h, t in (x[4] if len(x) > 4 else {}).items()})
+                           for x in cfg.get("stmt_prims", [])]
+        self.globals = set(rn(g) for g in cfg.get("globals", []))
         # the exception monad: by default Lib/Sexp.result with integer tags; a configuration may name another one
         # (type constructor, bind notation keyword, unit, fold, checked unwrap) whose errors carry data
         m = dict(type="result", bind="dor", ok="Ok", fold="res_fold", unwrap="unwrap")
@@ -191,6 +241,27 @@ class Tr:
                     hoist.append((n, tmpl[1:].format(**args)))
                     return n, ty
                 return "(" + tmpl.format(**args) + ")", ty
+        if isinstance(e, ast.Call) and isinstance(e.func, ast.Name) and e.func.id.startswith("STMTPRIM:"):
+            _, _, tmpl, ty, argtys = self.stmt_prims[int(e.func.id[len("STMTPRIM:"):])]
+            for kw in e.keywords:
+                if kw.arg is None and isinstance(kw.value.ctx, ast.Load):     # a name the run reads: it must be bound here
+                    if env.get(kw.value.id, ("unit",)) == ("unit",):
+                        raise Unsupported("statement run reads a variable that is not bound here: " + kw.value.id)
+                elif kw.arg is None:     # a name the run assigns besides its target: it must not be live (it would go stale)
+                    if env.get(kw.value.id, ("unit",)) != ("unit",):
+                        raise Unsupported("statement run re-assigns a bound variable it does not model: " + kw.value.id)
+            args = {}
+            for kw in e.keywords:
+                if kw.arg is not None:
+                    a, at = self.expr(kw.value, env, hoist)
+                    args[kw.arg] = self.need(a, at, argtys[kw.arg], hoist) if kw.arg in argtys else a
+            return "(" + tmpl.format(**args) + ")", ty
+        if isinstance(e, ast.Attribute) and e.attr in self.fields:
+            owner, fty, getter, _ = self.fields[e.attr]
+            o, ot = self.expr(e.value, env, hoist)
+            if ot != owner:
+                raise Unsupported("attribute %s of a %s (declared for %s)" % (e.attr, ot, owner))
+            return "(" + getter.format(obj=o) + ")", fty
         if isinstance(e, ast.Name) and e.id.startswith("MATCHCLASS:"):
             return "(" + e.id[len("MATCHCLASS:"):] + ")", ("bool",)
         if isinstance(e, ast.Name):
@@ -210,6 +281,27 @@ class Tr:
                 return "[]", EMPTY_T
             parts = [self.expr(x, env, hoist) for x in e.elts]
             return "[" + "; ".join(p[0] for p in parts) + "]", ("list", parts[0][1])
+        if isinstance(e, ast.Dict) and not e.keys:
+            return "[]", EMPTY_T
+        if isinstance(e, ast.DictComp):
+            # {k(x): v(x) for x in L}  ->  fold_left (fun d x => dict_set d k v) L []; neither k nor v may raise
+            if len(e.generators) != 1 or e.generators[0].is_async or e.generators[0].ifs \
+                    or not isinstance(e.generators[0].target, ast.Name):
+                raise Unsupported("dict comprehension other than {k(x): v(x) for x in L}: " + ast.unparse(e))
+            g = e.generators[0]
+            l, lt = self.expr(g.iter, env, hoist)
+            if lt[0] != "list":
+                raise Unsupported("dict comprehension over a %s" % (lt,))
+            env2 = dict(env)
+            env2[g.target.id] = lt[1]
+            inner = []
+            kk, kt = self.expr(e.key, env2, inner)
+            kk = self.need(kk, kt, ("Z",), inner)
+            vv, vt = self.expr(e.value, env2, inner)
+            if inner:
+                raise Unsupported("dict comprehension key / value that may raise: " + ast.unparse(e))
+            d = self.new("d")
+            return "(fold_left (fun %s %s => dict_set %s %s %s) %s [])" % (d, g.target.id, d, kk, vv, l), ("dictof", vt)
         if isinstance(e, ast.ListComp):
             # [f(x) for x in L if P]  ->  map (fun x => f) (filter (fun x => P) L); neither f nor P may raise
             if len(e.generators) != 1 or e.generators[0].is_async or not isinstance(e.generators[0].target, ast.Name):
@@ -223,17 +315,18 @@ class Tr:
             env2[x] = lt[1]
             inner = []
             conds = [self.cond(c, env2, inner) for c in g.ifs]
+            if inner and len(g.ifs) == 1 and not isinstance(g.ifs[0], ast.BoolOp) and self.M["type"] == "result":
+                # a condition that may raise: evaluated element by element from the left (Lib/PyRt.res_filter)
+                n = self.new("l")
+                body = "".join("dor %s <- %s; " % nt for nt in inner) + "Ok " + conds[0]
+                hoist.append((n, "res_filter (fun %s => %s) %s" % (x, body, l)))
+                l, conds, inner = n, [], []
             src = "(filter (fun %s => %s) %s)" % (x, " && ".join(conds), l) if conds else l
             if isinstance(e.elt, ast.Name) and e.elt.id == x:
                 out = src, lt
             else:
                 f, ft = self.expr(e.elt, env2, inner)
                 out = "(map (fun %s => %s) %s)" % (x, f, src), ("list", ft)
-            if inner and isinstance(e.elt, ast.Name) and e.elt.id == x and len(conds) == 1 and self.M["type"] == "result":
-                n = self.new("c")     # one condition that may raise: res_filter, hoisted (the comprehension itself may raise)
-                binds = " ".join("dor %s <- %s;" % (hn, ht) for hn, ht in inner)
-                hoist.append((n, "res_filter (fun %s => %s Ok %s) %s" % (x, binds, conds[0], l)))
-                return n, lt
             if inner:
                 raise Unsupported("comprehension element / condition that may raise: " + ast.unparse(e))
             return out
@@ -280,17 +373,38 @@ class Tr:
             return "[]"
         if want in (("dict",), ("set",)) and have == EMPTY_T:
             return "[]"
+        if want[0] == "dictof" and have == EMPTY_T:
+            return "[]"
+        if {have, want} == {("dict",), ("dictof", ("Z",))}:
+            return term
+        co = self.coercion(have, want)
+        if co is not None:
+            return co(term)
         if have[0] == "opt" and have[1] == want:
             n = self.new("u")
             hoist.append((n, "%s %s" % (self.M["unwrap"], term)))
             return n
         raise Unsupported("type mismatch: %s has type %s, needed %s" % (term, have, want))
 
+    def coercion(self, have, want):
+        """cfg["coerce"]: an upcast have -> want (a function on terms), also pointwise under list / dict; None if there is none"""
+        if (have, want) in self.coerce:
+            return lambda term: "(" + self.coerce[(have, want)].format(x=term) + ")"
+        if have[0] == want[0] and have[0] in ("list", "dictof") and len(have) == 2 and len(want) == 2:
+            inner = self.coercion(have[1], want[1])
+            if inner is not None and have[0] == "list":
+                return lambda term: "(map (fun c__ => %s) %s)" % (inner("c__"), term)
+            if inner is not None:
+                return lambda term: "(map (fun kv__ => (fst kv__, %s)) %s)" % (inner("(snd kv__)"), term)
+        return None
+
     def cond(self, e, env, hoist):
         """a Python truth test"""
         v, t = self.expr(e, env, hoist)
         if t == ("bool",):
             return v
+        if t[0] == "opt" and t[1][0] == "list":
+            return "(opt_list_truthy %s)" % v
         if t[0] == "list":
             return "(negb (is_nil %s))" % v
         if t[0] == "opt":
@@ -309,6 +423,8 @@ class Tr:
             x, xt = self.expr(le, env, hoist)
             c, ct = self.expr(re, env, hoist)
             x = self.need(x, xt, ("Z",), hoist)
+            if ct[0] == "opt":     # `a in None` is a TypeError
+                c, ct = self.need(c, ct, ct[1], hoist), ct[1]
             if ct == ("dict",):
                 r = "(dict_mem %s %s)" % (x, c)
             elif ct == ("set",) or ct == ("list", ("Z",)):
@@ -373,13 +489,21 @@ class Tr:
                     if self.unify(patn, st.value, {}):
                         add(var)
                 for t in st.targets:
+                    if self.field_target(t) is not None:      # x.attr = e rebinds x
+                        add(self.field_target(t))
+                        continue
                     for n in ([t] if isinstance(t, ast.Name) else t.elts if isinstance(t, ast.Tuple) else []):
                         if isinstance(n, ast.Name):
                             add(n.id)
                         else:
                             raise Unsupported("assignment target: " + ast.unparse(st))
+                    if isinstance(t, ast.Subscript) and isinstance(t.value, ast.Name):
+                        add(t.value.id)        # d[k] = v
+                        continue
                     if not isinstance(t, (ast.Name, ast.Tuple)):
                         raise Unsupported("assignment target: " + ast.unparse(st))
+            elif isinstance(st, ast.AnnAssign) and isinstance(st.target, ast.Name) and st.value is not None:
+                add(st.target.id)
             elif isinstance(st, ast.AugAssign):
                 if isinstance(st.target, ast.Name):
                     add(st.target.id)
@@ -391,6 +515,8 @@ class Tr:
                 eff = self.effect_of(st.value)
                 if eff:
                     add(eff[0])
+                elif self.field_append(st.value) is not None:     # x.attr.append(e) rebinds x
+                    add(self.field_append(st.value)[0])
                 elif isinstance(st.value, ast.Call) and isinstance(st.value.func, ast.Attribute) \
                         and st.value.func.attr in ("append", "add") and isinstance(st.value.func.value, ast.Name):
                     add(st.value.func.value.id)
@@ -412,6 +538,9 @@ class Tr:
                     add(n)
                 if st.orelse:
                     raise Unsupported("while/else")
+            elif isinstance(st, ast.With):
+                for n in [self.with_item(st)[0]] + self.assigned(st.body):
+                    add(n)
             elif isinstance(st, ast.Match):
                 for c in st.cases:
                     for n in self.assigned(c.body):
@@ -447,6 +576,8 @@ class Tr:
             if isinstance(st, kinds):
                 return True
             if isinstance(st, ast.If) and (self.has_jump(st.body, kinds) or self.has_jump(st.orelse, kinds)):
+                return True
+            if isinstance(st, ast.With) and self.has_jump(st.body, kinds):
                 return True
             if isinstance(st, (ast.For, ast.While)):
                 inner = tuple(k for k in kinds if k is not ast.Continue and k is not ast.Break)
@@ -492,6 +623,8 @@ class Tr:
         if self.is_ignored(st):
             return self.block(rest, env, k, ind)
         hoist = []
+        if isinstance(st, ast.AnnAssign) and isinstance(st.target, ast.Name) and st.value is not None and st.simple:
+            st = ast.Assign(targets=[st.target], value=st.value)      # `x: T = e` is `x = e`
         if isinstance(st, ast.Assign):
             for patn, var, tmpl in self.assign_effects:
                 binds = {}
@@ -517,6 +650,23 @@ class Tr:
                     env2[tgt.id] = vty
                     txt = "%s%s %s <- %s;\n" % (ind, self.M["bind"], self.bind_pat([tgt.id] + svars), tmpl.format(**args))
                     return self.bind_hoist(hoist, txt, ind) + self.block(rest, env2, k, ind)
+            if isinstance(tgt, ast.Subscript) and isinstance(tgt.value, ast.Name):      # d[k] = v on a `dict T`
+                d = tgt.value.id
+                dt = env.get(d)
+                if dt is not None and dt[0] == "list" and self.cfg.get("index_error") is not None and self.M["type"] == "result":
+                    # a[i] = v on a list / numpy array: IndexError (tag cfg["index_error"]) outside -len..len-1
+                    ii, it = self.expr(tgt.slice, env, hoist)
+                    vv, vt = self.expr(st.value, env, hoist)
+                    txt = "%sdor %s <- list_set (%d) %s %s %s;\n" % (ind, d, self.cfg["index_error"], d, self.need(ii, it, ("Z",), hoist),
+                                                                     self.need(vv, vt, dt[1], hoist))
+                    return self.bind_hoist(hoist, txt, ind) + self.block(rest, env, k, ind)
+                if dt is None or dt[0] not in ("dict", "dictof"):
+                    raise Unsupported("subscript assignment: " + ast.unparse(st))
+                kk, kt = self.expr(tgt.slice, env, hoist)
+                vv, vt = self.expr(st.value, env, hoist)
+                term = "(dict_set %s %s %s)" % (d, self.need(kk, kt, ("Z",), hoist),
+                                                self.need(vv, vt, dt[1] if dt[0] == "dictof" else ("Z",), hoist))
+                return self.bind_hoist(hoist, "%slet %s := %s in\n" % (ind, d, term), ind) + self.block(rest, env, k, ind)
             for patn, var, st_t, val_t, vty in self.effect_calls:
                 binds = {}
                 if isinstance(tgt, ast.Name) and self.unify(patn, st.value, binds):
@@ -529,6 +679,8 @@ class Tr:
                     txt = "%slet %s : %s := %s in\n%slet %s := %s in\n" % (
                         ind, tgt.id, coq_type(vty), val_t.format(**args), ind, var, st_t.format(**args))
                     return self.bind_hoist(hoist, txt, ind) + self.block(rest, env2, k, ind)
+            if self.field_target(tgt) is not None:
+                return self.field_store(tgt.value.id, tgt.attr, st.value, False, env, hoist, rest, k, ind)
             if isinstance(tgt, ast.Name):
                 ty = self.var_type(tgt.id)
                 v, vt = self.expr(st.value, env, hoist)
@@ -571,6 +723,9 @@ class Tr:
                     return self.bind_hoist(hoist, "%s%s %s <- %s;\n" % (ind, self.M["bind"], var, tmpl[1:].format(**args)), ind) + self.block(rest, env, k, ind)
                 return self.bind_hoist(hoist, "%slet %s := %s in\n" % (ind, var, tmpl.format(**args)), ind) + self.block(rest, env, k, ind)
             c = st.value
+            if self.field_append(c) is not None:
+                x, attr, arg = self.field_append(c)
+                return self.field_store(x, attr, arg, True, env, hoist, rest, k, ind)
             n = c.func.value.id
             if n not in env or len(c.args) != 1 or c.keywords:
                 raise Unsupported("method call: " + ast.unparse(st))
@@ -596,6 +751,17 @@ class Tr:
             v, vt = self.expr(st.value, env, hoist)
             v = self.need_ret(v, vt, st.value, env, hoist)
             return self.bind_hoist(hoist, k(env, jump=("return", v)), ind)
+        if isinstance(st, ast.If) and self.default_idiom(st, env) is not None:
+            # if x is None: x = e   with x : opt T bound and declared at type T  ->  x : T afterwards
+            x, ty = self.default_idiom(st, env)
+            v, vt = self.expr(st.body[0].value, env, hoist)
+            v = self.need(v, vt, ty, hoist)
+            if hoist:
+                raise Unsupported("default value that may raise: " + ast.unparse(st.body[0]))
+            env2 = dict(env)
+            env2[x] = ty
+            return "%slet %s : %s := match %s with Some v__ => v__ | None => %s end in\n" % (ind, x, coq_type(ty), x, v) \
+                + self.block(rest, env2, k, ind)
         if isinstance(st, ast.If):
             c = self.cond(st.test, env, hoist)
             bj, oj = self.always_jumps(st.body), self.always_jumps(st.orelse)
@@ -608,12 +774,16 @@ class Tr:
                 raise Unsupported("an if with a branch that may, but need not, continue/return/break: " + ast.unparse(st.test))
             allv = self.assigned(st.body + st.orelse)
             vs = [v for v in allv if v in env and env[v] != ("unit",)]
+            both = [v for v in allv if v not in vs and v in self.plainly_assigned(st.body) and v in self.plainly_assigned(st.orelse)]
+            vs = [v for v in allv if v in vs or v in both]     # assigned on both paths: bound afterwards
             dropped = [v for v in allv if v not in vs]
             ret = lambda env2, jump=None: "%s    %s %s\n" % (ind, self.M["ok"], tuple_term(vs)) if jump is None else self.unsupported("jump in if")
             tb = self.block(st.body, env, ret, ind + "    ")
             te = self.block(st.orelse, env, ret, ind + "    ")
             txt = "%s%s %s <- (if %s then\n%s%s  else\n%s%s  );\n" % (ind, self.M["bind"], self.bind_pat(vs), c, tb, ind, te, ind)
             env_after = dict(env)
+            for v in both:
+                env_after[v] = self.var_type(v)
             for v in dropped:
                 txt += "%slet %s := tt in\n" % (ind, v)   # poison: a later read is a type error
                 env_after[v] = ("unit",)
@@ -622,7 +792,112 @@ class Tr:
             return self.loop(st, rest, env, k, ind)
         if isinstance(st, ast.Match):
             return self.block([self.match_to_if(st)] + rest, env, k, ind)
+        if isinstance(st, ast.With):
+            x, ctx = self.with_item(st)
+            if self.has_jump(st.body, (ast.Continue, ast.Return)):
+                raise Unsupported("continue/return inside a with block")
+            tmpl, ty, binds, argtys = ctx
+            if self.var_type(x) != ty:
+                raise Unsupported("with target %s declared %s, context gives %s" % (x, self.var_type(x), ty))
+            args = {}
+            for kk, v in binds.items():
+                a, at = self.expr(v, env, hoist)
+                args[kk[2:]] = self.need(a, at, argtys[kk[2:]], hoist) if kk[2:] in argtys else a
+            env2 = dict(env)
+            env2[x] = ty
+            txt = "%slet %s : %s := %s in\n" % (ind, x, coq_type(ty), tmpl.format(**args))
+            return self.bind_hoist(hoist, txt, ind) + self.block(list(st.body) + rest, env2, k, ind)
         raise Unsupported("statement: " + ast.unparse(st)[:80])
+
+    # ---- with blocks (cfg["contexts"]) and statement-run primitives (cfg["stmt_prims"])
+    def with_item(self, st):
+        """`with E as x:` with E a declared context -> (x, (template, type, hole bindings, hole types))"""
+        if len(st.items) != 1 or not isinstance(st.items[0].optional_vars, ast.Name):
+            raise Unsupported("with statement other than `with E as x`: " + ast.unparse(st)[:80])
+        for pat, tmpl, ty, argtys in self.contexts:
+            binds = {}
+            if self.unify(pat, st.items[0].context_expr, binds):
+                return st.items[0].optional_vars.id, (tmpl, ty, binds, argtys)
+        raise Unsupported("with over an undeclared context: " + ast.unparse(st.items[0].context_expr))
+
+    def rewrite_runs(self, stmts):
+        """replace, in place and recursively, every run of statements matching a cfg["stmt_prims"] pattern by
+        `target = STMTPRIM:i(hole=..., **read names)`"""
+        j = 0
+        while j < len(stmts):
+            for i, (pats, target, _, _, _) in enumerate(self.stmt_prims):
+                binds = {}
+                if j + len(pats) <= len(stmts) and all(self.unify(p, q, binds) for p, q in zip(pats, stmts[j:j + len(pats)])):
+                    stored = set(n.id for p in pats for n in ast.walk(p) if isinstance(n, ast.Name) and isinstance(n.ctx, ast.Store))
+                    reads = list(dict.fromkeys(
+                        n.id for p in pats for n in ast.walk(p)
+                        if isinstance(n, ast.Name) and isinstance(n.ctx, ast.Load) and not n.id.startswith("__")
+                        and n.id not in stored and n.id not in self.globals))
+                    call = ast.Call(func=ast.Name(id="STMTPRIM:%d" % i, ctx=ast.Load()), args=[],
+                                    keywords=[ast.keyword(arg=h[2:], value=v) for h, v in binds.items()]
+                                    + [ast.keyword(arg=None, value=ast.Name(id=r, ctx=ast.Load())) for r in reads]
+                                    + [ast.keyword(arg=None, value=ast.Name(id=r, ctx=ast.Store())) for r in sorted(stored - {target})])
+                    new = ast.Assign(targets=[ast.Name(id=target, ctx=ast.Store())], value=call)
+                    stmts[j:j + len(pats)] = [ast.copy_location(new, stmts[j])]
+                    break
+            st = stmts[j]
+            for field in ("body", "orelse"):
+                if isinstance(getattr(st, field, None), list) and not isinstance(st, ast.Match):
+                    self.rewrite_runs(getattr(st, field))
+            j += 1
+
+    # ---- object attributes (cfg["fields"])
+    def field_target(self, t):
+        """x.attr with attr declared and x a plain variable -> the variable's name, else None"""
+        if isinstance(t, ast.Attribute) and t.attr in self.fields and isinstance(t.value, ast.Name):
+            return t.value.id
+        return None
+
+    def field_append(self, call):
+        """x.attr.append(e) -> (x, attr, e), else None"""
+        if isinstance(call, ast.Call) and isinstance(call.func, ast.Attribute) and call.func.attr == "append" \
+                and len(call.args) == 1 and not call.keywords and self.field_target(call.func.value) is not None:
+            return call.func.value.value.id, call.func.value.attr, call.args[0]
+        return None
+
+    def field_store(self, x, attr, value, append, env, hoist, rest, k, ind):
+        """x.attr = value  /  x.attr.append(value): the variable x is rebound to the updated object"""
+        owner, fty, getter, setter = self.fields[attr]
+        if env.get(x) != owner:
+            raise Unsupported("store to attribute %s of %s, which is not a bound %s" % (attr, x, owner))
+        v, vt = self.expr(value, env, hoist)
+        if append:
+            if fty[0] != "list":
+                raise Unsupported("append to a field that is not a list: " + attr)
+            v = "(%s ++ [%s])" % (getter.format(obj=x), self.need(v, vt, fty[1], hoist))
+        else:
+            v = self.need(v, vt, fty, hoist)
+        txt = "%slet %s : %s := %s in\n" % (ind, x, coq_type(owner), setter.format(obj=x, val=v))
+        return self.bind_hoist(hoist, txt, ind) + self.block(rest, env, k, ind)
+    def default_idiom(self, st, env):
+        """(x, T) if [st] is `if x is None: x = e` with x bound at type opt T and declared in cfg["vars"] at type T"""
+        t = st.test
+        if st.orelse or len(st.body) != 1 or not isinstance(st.body[0], ast.Assign) or len(st.body[0].targets) != 1:
+            return None
+        tgt = st.body[0].targets[0]
+        if not (isinstance(t, ast.Compare) and len(t.ops) == 1 and isinstance(t.ops[0], ast.Is) and isinstance(t.left, ast.Name)
+                and isinstance(t.comparators[0], ast.Constant) and t.comparators[0].value is None
+                and isinstance(tgt, ast.Name) and tgt.id == t.left.id):
+            return None
+        x = tgt.id
+        if x in env and env[x][0] == "opt" and self.vars.get(x) == env[x][1]:
+            return x, env[x][1]
+        return None
+
+    def plainly_assigned(self, stmts):
+        """names assigned by a plain `x = e` / `x: T = e` statement at the top level of [stmts] (assigned on every path through them)"""
+        out = []
+        for st in stmts:
+            if isinstance(st, ast.Assign) and len(st.targets) == 1 and isinstance(st.targets[0], ast.Name):
+                out.append(st.targets[0].id)
+            if isinstance(st, ast.AnnAssign) and isinstance(st.target, ast.Name) and st.value is not None:
+                out.append(st.target.id)
+        return out
 
     def match_to_if(self, st):
         """match <subject>: case C1(): ... case C2(): ... case other: ...   ->   if/elif/else on the class tests
@@ -821,6 +1096,7 @@ class Tr:
             if cfg.get("implicit_return") is not None or any(v not in env for v in self.return_state):
                 raise Unsupported("return_state needs declared state parameters and explicit returns")
             rtype = "(%s)" % " * ".join([rtype] + [coq_type(env[v]) for v in self.return_state])
+        self.rewrite_runs(f.body)
         body = self.block(list(f.body), env, kfun, ind)
         return "Definition %s %s : %s %s :=\n%s%s." % (cfg["name"], " ".join(params), self.M["type"], rtype, pre, body.rstrip("\n"))
 
@@ -882,9 +1158,20 @@ class AttrVars(ast.NodeTransformer):
         return node
 
 
+class AnnToAssign(ast.NodeTransformer):
+    """`x: T = e` in a function body is `x = e`: the annotation of a local or attribute target is not evaluated there.
+    A bare declaration `x: T` is left alone (and refused as an unsupported statement)."""
+
+    def visit_AnnAssign(self, node):
+        if node.value is None:
+            return node
+        return ast.copy_location(ast.Assign(targets=[node.target], value=node.value), node)
+
+
 def translate(source_text, cfg):
     tree = ast.parse(source_text)
     f = find_function(tree, cfg["func"], cfg.get("cls"))
+    f = AnnToAssign().visit(f)
     if cfg.get("attr_vars"):
         f = AttrVars(cfg["attr_vars"]).visit(f)
     f = Rename().visit(f)
